@@ -35,6 +35,11 @@ func init() {
   }
   list r { config false; key k; leaf k { type string; } leaf q { type string; } }
 }`
+	// a grouping that uses itself through a container and a list (the library expands it lazily)
+	model.Schemas["recur"] = `module recur { namespace "urn:recur"; prefix r; revision 0;
+  grouping g { leaf v { type string; } container a { uses g; } list k { key n; leaf n { type string; } uses g; } }
+  container r { uses g; }
+}`
 	eng.Register(&c07{base{id: "C07", level: "model_checking",
 		rule: "for every data tree of the family (all trees to the size bound plus full trees with lists of 4 entries and nested lists of 3) and every target selection present (root, containers, lists, entries), every value of every parameter (content, depth 1..depth+2 and invalid, every fields / fc.xfields expression over the schema paths below the target: single, multi-segment, alternatives, grouped, unknown, malformed; with-defaults; every fc.range window 0<=s<=e<=n+1, open end, malformed, on top-level and nested lists; fc.max-node-count 0..containers+1 and invalid) and every pair of parameters is applied through Constrain and through Find(path?query); the read is captured in a reference store and compared with the projection computed by the reference model from the unconstrained tree; the source store must be unchanged. states = distinct (tree,target), transitions = constrained reads. Non-trivial = distinct (tree,target,query) whose projection differs from the unconstrained read or that is invalid"}})
 }
@@ -51,6 +56,7 @@ type c07Case struct {
 }
 
 var c07Trees = map[string]string{
+	"recur": `{"r":{"v":"0","a":{"v":"1","a":{"v":"2","a":{"v":"3","a":{"v":"4"}},"k":[{"n":"x","v":"k3","a":{"v":"k4"}}]}},"k":[{"n":"y","v":"k1","a":{"v":"k2","a":{"v":"k3"}}}]}}`,
 	"full": `{"t":"a","st":"b","c":{"a":"a","b":7,"s":1,"d":{"x":"a","y":5,"e":{"z":"a","z2":"b"}},"o":{"p":"a"}},
 	  "l":[{"k":"a","v":3,"w":"a","m":{"z":"a"},"n":[{"j":1,"u":"a"},{"j":2,"u":"b"},{"j":3,"u":"c"}]},{"k":"b","v":1},{"k":"c","v":2,"n":[{"j":1,"u":"a"}]},{"k":"d","w":"b"}],
 	  "r":[{"k":"a","q":"a"},{"k":"b","q":"b"}]}`,
@@ -80,6 +86,10 @@ func (p *c07) Cases(tier string, emit func(interface{})) {
 				emit(c07Case{Part: "sweep", Tree: tr, B: c07B(tier), Param: prm, Via: via})
 			}
 		}
+	}
+	for _, prm := range []string{"depth", "fields", "fc.xfields"} {
+		emit(c07Case{Part: "sweep", Tree: "recur", Param: prm, Via: "constrain"})
+		emit(c07Case{Part: "sweep", Tree: "recur", Param: prm, Via: "find"})
 	}
 }
 
@@ -293,12 +303,18 @@ func defAtRel(defs []meta.Definition, p []string) meta.Definition {
 	return cur
 }
 
-func schemaDepth(defs []meta.Definition) int {
+func schemaDepth(defs []meta.Definition) int { return schemaDepthTo(defs, 6) }
+
+// schemaDepthTo: depth of the schema below defs, at most limit (schemas may be recursive)
+func schemaDepthTo(defs []meta.Definition, limit int) int {
+	if limit == 0 {
+		return 0
+	}
 	d := 0
 	for _, x := range model.FlatDefs(defs) {
 		n := 1
 		if h, ok := x.(meta.HasDataDefinitions); ok {
-			n += schemaDepth(h.DataDefinitions())
+			n += schemaDepthTo(h.DataDefinitions(), limit-1)
 		}
 		if n > d {
 			d = n
@@ -351,6 +367,9 @@ func (p *c07) Run(raw json.RawMessage) eng.Result {
 	var res eng.Result
 	ss := &sigSet{res: &res}
 	m := model.SharedSchema("query")
+	if c.Tree == "recur" {
+		m = model.SharedSchema("recur")
+	}
 	var trees []*model.Tree
 	switch {
 	case c.Part == "one":
@@ -458,7 +477,7 @@ func (p *c07) Run(raw json.RawMessage) eng.Result {
 						if sq.text != text {
 							continue
 						}
-						env := newEnv("query", "ref")
+						env := newEnv(m.Ident(), "ref")
 						env.populate(t)
 						got, gotList, err, pfr, _ := c07Read(env, target, sq.text, c.Via)
 						if pfr != "" || err != nil {
@@ -495,7 +514,7 @@ func (p *c07) Run(raw json.RawMessage) eng.Result {
 				if len(q.parts) == 2 && (!single(q.parts[0]) || !single(q.parts[1])) {
 					continue // the pair adds nothing over the failing single parameter
 				}
-				env := newEnv("query", "ref")
+				env := newEnv(m.Ident(), "ref")
 				if err := env.populate(t); err != nil {
 					panic(err)
 				}
